@@ -214,10 +214,12 @@ impl CoeServiceRequest for SdoSegmented {
 pub struct LabeledTimeout { pub _p: u8 }
 pub struct Timeouts { pub _p: u8 }
 impl Timeouts {
+    pub uninterp spec fn mailbox_echo_v(&self) -> LabeledTimeout;
+    pub uninterp spec fn mailbox_response_v(&self) -> LabeledTimeout;
     #[verifier::external_body]
-    pub fn mailbox_echo(&self) -> (r: LabeledTimeout) { unimplemented!() }
+    pub fn mailbox_echo(&self) -> (r: LabeledTimeout) ensures r == self.mailbox_echo_v() { unimplemented!() }
     #[verifier::external_body]
-    pub fn mailbox_response(&self) -> (r: LabeledTimeout) { unimplemented!() }
+    pub fn mailbox_response(&self) -> (r: LabeledTimeout) ensures r == self.mailbox_response_v() { unimplemented!() }
     /// the pause between two polls (src/timer_factory.rs)
     #[verifier::external_body]
     pub async fn loop_tick(&self) { unimplemented!() }
@@ -363,7 +365,7 @@ impl<'a> Coe<'a> {
         i > 0 ==> exists|st: Status| #[trigger] status_read(sm_status_reg(read_mailbox.sync_manager), st),
 @loop 1
     invariant
-        __dl.active,
+        __dl.active, __dl.t@ == self.subdevice.maindevice.timeouts.mailbox_echo_v(),
     ensures
         __brk0 is Ok ==> exists|st: Status| #[trigger] status_read(sm_status_reg(write_mailbox.sync_manager), st) && !st.mailbox_full,
     decreases __dl.left@
@@ -380,7 +382,7 @@ impl<'a> Coe<'a> {
         r is Err ==> exchange_err(r->Err_0),
 @loop 0
     invariant
-        __dl.active,
+        __dl.active, __dl.t@ == self.subdevice.maindevice.timeouts.mailbox_response_v(),
     ensures
         __brk0 is Ok ==> exists|st: Status| #[trigger] status_read(sm_status_reg(read_mailbox.sync_manager), st) && st.mailbox_full,
     decreases __dl.left@
